@@ -149,6 +149,26 @@ def enc_multiclass(classes):
     return f
 
 
+_POS = {}
+
+
+def enc_first_then(first, later):
+    """history-dependent encoding: the very first pair of a run uses the classes `first` (e.g. a short string, an int, a
+    bool, a float32), every later pair the classes `later` (longer strings with the same prefix, floats, other ints, close
+    float64 values) — a detector that remembers anything about the type / width of the first label it saw (dtype pinning,
+    fixed-width string arrays) merges or truncates the later ones."""
+    def f(yt, yp, r):
+        key = id(r)
+        ent = _POS.get(key)
+        if ent is None or ent[0] is not r:
+            ent = [r, 0]
+            _POS.clear()
+            _POS[key] = ent
+        ent[1] += 1
+        return enc_multiclass(first if ent[1] == 1 else later)(yt, yp, r)
+    return f
+
+
 def wrap(box_t, box_p, inner=None):
     inner = inner or (lambda yt, yp, r: (yt, yp))
 
@@ -185,6 +205,15 @@ def agreement_encodings():
         ("5 int classes, same agreement", enc_multiclass([0, 1, 2, 3, 4])),
         ("4 string classes, same agreement", enc_multiclass(["n", "e", "s", "w"])),
         ("3 float classes, same agreement", enc_multiclass([0.0, 1.5, -2.0])),
+        ("short string first, then longer strings with that prefix", enc_first_then(["c1", "c2"], ["c10", "c11", "c1", "c100"])),
+        ("short np.str_ first, then longer", enc_first_then([np.str_("a"), np.str_("b")], [np.str_("ab"), np.str_("abc"), np.str_("a")])),
+        ("ints first, then fractions", enc_first_then([0, 1], [0.25, 0.5, 0.75, 1])),
+        ("bools first, then other ints", enc_first_then([False, True], [2, 3, 4])),
+        ("float32 first, then float64 values equal in float32", enc_first_then([np.float32(1.0), np.float32(2.0)],
+                                                                                 [1.0, 1.0 + 2.0**-30, 1.0 + 2.0**-29])),
+        ("np.int8 first, then ints differing by 256", enc_first_then([np.int8(1), np.int8(2)], [1, 257, 513])),
+        ("1-element arrays: short string first, then longer", wrap(lambda v: np.array([v]), lambda v: np.array([v]),
+                                                                   enc_first_then(["c1", "c2"], ["c10", "c11", "c1"]))),
         ("1-element lists", wrap(lambda v: [v], lambda v: [v])),
         ("1-element tuples of strings", wrap(lambda v: (v,), lambda v: (v,), enc_scalar({0: "x", 1: "y"}))),
         ("1-element ndarrays", wrap(lambda v: np.array([v]), lambda v: np.array([v]))),
